@@ -132,24 +132,74 @@ func genFedSpec(W *core.Tape, rich bool) *fedSpec {
 				if g.Type.Name != "String" || g.Type.List || !W.Prob(0.3) {
 					continue
 				}
+				// chains are allowed (g requires f, f requires h, ...) as long as they stay acyclic:
+				// a candidate input must not (transitively) require g
+				reaches := func(from *fedField, target string) bool {
+					for cur, n := from, 0; cur != nil && n < 8; n++ {
+						if cur.Requires == "" {
+							return false
+						}
+						if cur.Requires == target {
+							return true
+						}
+						cur = e.field(cur.Requires)
+					}
+					return false
+				}
+				// A chain must not come back to a subgraph it already visited (g@B requires f@A requires
+				// h@B): for such configurations the planner produces a cyclic fetch dependency and the
+				// post-processor recurses until the process dies with a fatal stack overflow, which no
+				// harness can survive. Recorded as a finding (DESIGN.md 12); never generated.
+				ownersOnChain := func(from *fedField) map[int]bool {
+					m := map[int]bool{}
+					for cur, n := from, 0; cur != nil && n < 8; n++ {
+						m[cur.Owner] = true
+						if cur.Requires == "" {
+							break
+						}
+						cur = e.field(cur.Requires)
+					}
+					return m
+				}
+				requiredBy := func(name string) []*fedField {
+					var out []*fedField
+					for _, o := range e.Fields {
+						if o.Requires == name {
+							out = append(out, o)
+						}
+					}
+					return out
+				}
+				var downstreamOwners func(f *fedField, m map[int]bool, depth int)
+				downstreamOwners = func(f *fedField, m map[int]bool, depth int) {
+					if depth > 8 {
+						return
+					}
+					for _, o := range requiredBy(f.Name) {
+						m[o.Owner] = true
+						downstreamOwners(o, m, depth+1)
+					}
+				}
 				var cands []*fedField
 				for _, f := range e.Fields {
-					if f != g && f.Owner != g.Owner && isScalarName(f.Type.Name) && !f.Type.List && f.Requires == "" {
+					if f == g || f.Owner == g.Owner || !isScalarName(f.Type.Name) || f.Type.List || reaches(f, g.Name) {
+						continue
+					}
+					up := ownersOnChain(f) // owners of f and everything f needs
+					down := map[int]bool{g.Owner: true}
+					downstreamOwners(g, down, 0) // owners of g and everything that needs g
+					clash := false
+					for o := range up {
+						if down[o] {
+							clash = true
+						}
+					}
+					if !clash {
 						cands = append(cands, f)
 					}
 				}
 				if len(cands) > 0 {
-					// do not make a field required that itself requires g (cycle) — cands have no requires
-					required := cands[W.Intn(len(cands))]
-					usedAsInput := false
-					for _, o := range e.Fields {
-						if o.Requires == g.Name {
-							usedAsInput = true
-						}
-					}
-					if !usedAsInput {
-						g.Requires = required.Name
-					}
+					g.Requires = cands[W.Intn(len(cands))].Name
 				}
 			}
 		}
@@ -516,6 +566,9 @@ func (s *fedSpec) rootValue(r *fedField, args map[string]any) any {
 type fedFail map[string]bool
 
 type monolithBackend struct {
+	// ignoreFailedInputs: a @requires field whose input failed elsewhere still has its real value
+	// here (it was computed on a path where the subgraph provides the input itself)
+	ignoreFailedInputs bool
 	nullInputOnFailure bool
 	s                  *fedSpec
 	fail               func(typeName, id, field string) bool
@@ -554,7 +607,7 @@ func (m *monolithBackend) Resolve(parent *gObj, fd *gFieldDef, args map[string]a
 	if m.fail != nil && m.fail(parent.Type, parent.ID, f.Name) {
 		return nil, fmt.Errorf("failed")
 	}
-	if f.Requires != "" && m.fail != nil && m.fail(parent.Type, parent.ID, f.Requires) {
+	if f.Requires != "" && m.fail != nil && !m.ignoreFailedInputs && m.fail(parent.Type, parent.ID, f.Requires) {
 		if m.nullInputOnFailure {
 			// the other admissible outcome (see known finding C07 requires-input-null): the field is
 			// computed from a null input
